@@ -43,10 +43,11 @@ Definition rule_specs : list rule_spec := [
     ["identifier"] [] [["value"; "env"; "env_json"]; ["value"; "default_value"]];
   no_props "make_assignment_local";
   RuleSpec "remove_assertions" [preserve_args] [] [] [];
-  (* remove_attribute.rs: match is a regex list; serialize_to_properties returns nothing *)
-  RuleSpec "remove_attribute" [PropSpec "match" KRegexList (Some (PStrList [])) false] [] [] [];
-  (* remove_comments.rs: except is a regex list; serialize_to_properties returns nothing *)
-  RuleSpec "remove_comments" [PropSpec "except" KRegexList (Some (PStrList [])) false] [] [] [];
+  (* remove_attribute.rs: match is a regex list, kept in the given order (duplicates included) and written
+     (the sources of the patterns) when it is not empty *)
+  RuleSpec "remove_attribute" [PropSpec "match" KRegexList (Some (PStrList [])) true] [] [] [];
+  (* remove_comments.rs: except is a regex list, kept and written in the same way *)
+  RuleSpec "remove_comments" [PropSpec "except" KRegexList (Some (PStrList [])) true] [] [] [];
   no_props "remove_compound_assignment";
   RuleSpec "remove_debug_profiling" [preserve_args] [] [] [];
   no_props "remove_empty_do";
